@@ -397,9 +397,12 @@ class RollWorld:
 
     def sig_reader(self, rd, mf=None):
         pf = self.files[rd.pos[0]] if rd.pos is not None and rd.pos[0] < len(self.files) else None
-        return {'cause': self.cause(), 'reader': rd.kind,
-                'pos_file_deleted': bool(pf is not None and pf.deleted_step is not None),
-                'subus_ts': bool((mf is not None and mf.subus) or (pf is not None and pf.subus))}
+        sig = {'cause': self.cause(), 'reader': rd.kind,
+               'pos_file_deleted': bool(pf is not None and pf.deleted_step is not None),
+               'subus_ts': bool((mf is not None and mf.subus) or (pf is not None and pf.subus))}
+        if self.prop == 'C14':
+            sig = {'reader': rd.kind, 'pos_file_deleted': sig['pos_file_deleted'], 'across_restart': False}
+        return sig
 
     # -- the reader oracle ---------------------------------------------------------------------------------------------------------
 
@@ -620,7 +623,7 @@ class RollWorld:
         self.log('tell', rd.name, lit[0], lit[1])
         self.probe('tells')
         mp = self.lit_to_model(lit)
-        if not self.broken and rd.pos is not None and (mp is None or not self.equivalent(mp, rd.pos)):
+        if not self.broken and not self.unknowable and rd.pos is not None and (mp is None or not self.equivalent(mp, rd.pos)):
             self.probe('tell_mismatch')
 
     def op_seek(self, op):
